@@ -1,4 +1,240 @@
-import NriModel.Basic
-/-! Property theorems for C08 — placeholder until the model is written. -/
+import NriModel.Lemmas.LocksProgress
+/-!
+Property C08 — a registering plugin learns of each container exactly once; sync blocks hold it.
+
+Model: `Nri.Locks` (`NriModel/Locks.lean`), the labelled transition system of the plugin-sync
+RW lock of `pkg/adaptation/adaptation.go`. Every theorem quantifies over ALL histories
+`run init h = some s` (any number of plugins, blocks, goroutines and containers, any
+interleaving the lock protocol admits); all follow from the one inductive invariant
+`Nri.Locks.Good` (`Lemmas/Locks.lean`).
+
+The proviso of the property ("the runtime performs each creation together with its own
+bookkeeping inside a plugin-sync block") is the shape of the events `relay b c` / `record b c`
+(either order, both inside block `b`) and the guard of `unblock b`. A container whose creation
+is half done (relayed but not yet recorded, or the reverse) is "in flight"; a container is
+*settled* when it is in the store and its request has been relayed (`c ∈ s.sent`).
+-/
 namespace Nri.Props.C08
+open Nri.Locks
+
+/-- **Exactly once.** In every reachable state, every active plugin learnt of every settled
+    container of the runtime's store exactly once: through its snapshot or through a creation
+    request, never both and never neither. -/
+theorem C08_exactly_once {h : List Ev} {s : State} (hr : run init h = some s)
+    (p : Pid) (hp : (s.pl p).phase = .active) (c : Cid) (hc : c ∈ s.store) (hs : c ∈ s.sent) :
+    (c ∈ (s.pl p).snap ∧ c ∉ (s.pl p).got) ∨ (c ∉ (s.pl p).snap ∧ c ∈ (s.pl p).got) := by
+  have g := good_run hr
+  have _ := hc
+  by_cases hsn : c ∈ (s.pl p).snap
+  · exact Or.inl ⟨hsn, fun hg => ((g.gotIff p hp c).1 hg).2 hsn⟩
+  · exact Or.inr ⟨hsn, (g.gotIff p hp c).2 ⟨hs, hsn⟩⟩
+
+/-- … and with no sync block held every container of the store is settled, so the statement
+    holds for the whole store (this is what the harness evaluates on the real code's final
+    state). -/
+theorem C08_exactly_once_quiescent {h : List Ev} {s : State} (hr : run init h = some s)
+    (hq : s.readers = 0) (p : Pid) (hp : (s.pl p).phase = .active) (c : Cid) (hc : c ∈ s.store) :
+    ExactlyOnce (s.pl p) c := by
+  have g := good_run hr
+  have hh : s.holding = [] := List.eq_nil_of_length_eq_zero hq
+  exact C08_exactly_once hr p hp c hc ((g.quiescent hh c).1 hc)
+
+/-- The literal reading of "exactly once": the container occurs once in the concatenation of
+    what the plugin was given (no duplicate inside the snapshot or among the requests either). -/
+theorem C08_exactly_once_count {h : List Ev} {s : State} (hr : run init h = some s)
+    (p : Pid) (hp : (s.pl p).phase = .active) (c : Cid) (hc : c ∈ s.store) (hs : c ∈ s.sent) :
+    ((s.pl p).snap ++ (s.pl p).got).count c = 1 := by
+  have g := good_run hr
+  rw [List.count_append, (g.snapNodup p hp).count, (g.gotNodup p hp).count]
+  rcases C08_exactly_once hr p hp c hc hs with ⟨h1, h2⟩ | ⟨h1, h2⟩ <;> simp [h1, h2]
+
+/-- "Never both" holds for every container at every moment, in flight or not. -/
+theorem C08_never_both {h : List Ev} {s : State} (hr : run init h = some s)
+    (p : Pid) (hp : (s.pl p).phase = .active) (c : Cid) :
+    ¬ (c ∈ (s.pl p).snap ∧ c ∈ (s.pl p).got) := by
+  intro ⟨h1, h2⟩
+  exact (((good_run hr).gotIff p hp c).1 h2).2 h1
+
+/-- A plugin is told only of containers that exist or are being created right now. -/
+theorem C08_only_real {h : List Ev} {s : State} (hr : run init h = some s)
+    (p : Pid) (hp : (s.pl p).phase = .active) (c : Cid)
+    (hk : c ∈ (s.pl p).snap ∨ c ∈ (s.pl p).got) :
+    c ∈ s.store ∨ ∃ b, b ∈ s.holding ∧ (b, c) ∈ s.half := by
+  have g := good_run hr
+  rcases hk with hk | hk
+  · exact Or.inl (g.snapStore p hp c hk)
+  · have hs := ((g.gotIff p hp c).1 hk).1
+    rcases g.settled c with h1 | ⟨b, hb⟩
+    · exact Or.inl (h1.2 hs)
+    · exact Or.inr ⟨b, g.halfHeld _ hb, hb⟩
+
+/-- **Blocks hold.** While any sync block is held there is no writer and no plugin is between
+    the start of its synchronisation and its activation. -/
+theorem C08_blocks_hold {h : List Ev} {s : State} (hr : run init h = some s)
+    (hb : s.readers > 0) :
+    s.writer = none ∧ ∀ p, (s.pl p).phase ≠ .syncing ∧ (s.pl p).phase ≠ .snapped := by
+  have g := good_run hr
+  have hne : s.holding ≠ [] := by
+    intro h0; simp [State.readers, h0] at hb
+  obtain ⟨b, hbm⟩ := List.exists_mem_of_ne_nil _ hne
+  refine ⟨?_, fun p => g.noSyncWhileHeld hbm p⟩
+  cases hw : s.writer with
+  | none => rfl
+  | some q => exact absurd (g.excl q hw) hne
+
+/-- Conversely a plugin inside the exclusive section excludes every block. -/
+theorem C08_writer_excludes_blocks {h : List Ev} {s : State} (hr : run init h = some s)
+    (p : Pid) (hw : s.writer = some p ∨ (s.pl p).phase = .syncing ∨ (s.pl p).phase = .snapped) :
+    s.readers = 0 := by
+  have g := good_run hr
+  have : s.writer = some p := by
+    rcases hw with hw | hw | hw
+    · exact hw
+    · exact g.inSection p (Or.inl hw)
+    · exact g.inSection p (Or.inr hw)
+  simp [State.readers, g.excl p this]
+
+/-- Step form of "while any sync block is held no plugin is synchronised or becomes active":
+    after any step taken from a reachable state with a held block, whoever is active was active
+    before with the same snapshot, and nobody is inside a synchronisation. -/
+theorem C08_blocks_hold_step {h : List Ev} {s s' : State} {e : Ev} (hr : run init h = some s)
+    (hb : s.readers > 0) (he : step? s e = some s') (p : Pid) :
+    ((s'.pl p).phase = .active → (s.pl p).phase = .active ∧ (s'.pl p).snap = (s.pl p).snap) ∧
+    (s'.pl p).phase ≠ .syncing ∧ (s'.pl p).phase ≠ .snapped := by
+  obtain ⟨hw, hph⟩ := C08_blocks_hold hr hb
+  have hne : s.holding ≠ [] := by
+    intro h0; simp [State.readers, h0] at hb
+  have base := hph p
+  cases e with
+  | block b =>
+    simp only [step?] at he
+    split at he
+    · injection he with he; subst he; exact ⟨fun h => ⟨h, rfl⟩, base⟩
+    · cases he
+  | relay b c =>
+    simp only [step?] at he
+    split at he
+    · split at he
+      · split at he
+        · injection he with he; subst he; simpa using base
+        · cases he
+      · injection he with he; subst he; simpa using base
+    · cases he
+  | record b c =>
+    simp only [step?] at he
+    split at he
+    · split at he
+      · split at he
+        · injection he with he; subst he; exact ⟨fun h => ⟨h, rfl⟩, base⟩
+        · cases he
+      · injection he with he; subst he; exact ⟨fun h => ⟨h, rfl⟩, base⟩
+    · cases he
+  | unblock b =>
+    simp only [step?] at he
+    split at he
+    · injection he with he; subst he; exact ⟨fun h => ⟨h, rfl⟩, base⟩
+    · cases he
+  | syncBegin q => simp only [step?] at he; split at he <;> simp_all
+  | snapshot q => simp only [step?] at he; split at he <;> simp_all
+  | activate q => simp only [step?] at he; split at he <;> simp_all
+  | syncEnd q => simp only [step?] at he; split at he <;> simp_all
+  | abort q => simp only [step?] at he; split at he <;> simp_all
+  | drop q =>
+    simp only [step?] at he
+    split at he
+    · injection he with he; subst he
+      by_cases hpq : p = q
+      · subst hpq; simp
+      · simpa [setP, hpq] using base
+    · cases he
+
+/-- **Progress.** From every reachable state with no block held, an idle (pending) plugin can
+    complete its registration — whoever occupies the exclusive section at that moment can leave
+    it first — and it is then active with the current store as its snapshot. `completion s p`
+    is the explicit continuation. -/
+theorem C08_progress {h : List Ev} {s : State} (hr : run init h = some s)
+    (hq : s.readers = 0) (p : Pid) (hp : (s.pl p).phase = .idle) :
+    ∃ s', run s (completion s p) = some s' ∧ (s'.pl p).phase = .active ∧
+      (s'.pl p).snap = s.store ∧ s'.writer = none ∧ s'.readers = 0 := by
+  have hh : s.holding = [] := List.eq_nil_of_length_eq_zero hq
+  obtain ⟨s', h1, c⟩ := progress_one (good_run hr) hh hp
+  exact ⟨s', h1, c.active, c.snap, c.writer, by simp [State.readers, c.holding]⟩
+
+/-- … for any number of pending registrations at once, without deactivating anybody. -/
+theorem C08_progress_all {h : List Ev} {s : State} (hr : run init h = some s)
+    (hq : s.readers = 0) (ps : List Pid) (hnd : ps.Nodup)
+    (hp : ∀ p ∈ ps, (s.pl p).phase = .idle) :
+    ∃ h' s', run s h' = some s' ∧ (∀ p ∈ ps, (s'.pl p).phase = .active) ∧
+      (∀ r, (s.pl r).phase = .active → (s'.pl r).phase = .active) ∧ s'.writer = none := by
+  have hh : s.holding = [] := List.eq_nil_of_length_eq_zero hq
+  obtain ⟨h', s', h1, a, k, w, _, _⟩ := progress_all (good_run hr) hh ps hnd hp
+  exact ⟨h', s', h1, a, k, w⟩
+
+/-- "Once the last block is released pending registrations complete": releasing the last block
+    is enabled as soon as its creations are complete, and the registration then goes through. -/
+theorem C08_progress_after_last_unblock {h : List Ev} {s : State} (hr : run init h = some s)
+    (b : Bid) (hb : s.holding = [b]) (hdone : ∀ x ∈ s.half, x.1 ≠ b)
+    (p : Pid) (hp : (s.pl p).phase = .idle) :
+    ∃ h' s', run s (.unblock b :: h') = some s' ∧ (s'.pl p).phase = .active := by
+  have e : step? s (.unblock b) = some { s with holding := [] } := by
+    simp only [step?, hb, List.mem_singleton, true_and, List.erase_cons_head]; rw [if_pos hdone]
+  have hr1 : run init (h ++ [.unblock b]) = some { s with holding := [] } := by
+    simp [run_append, hr, run, e]
+  obtain ⟨s', h1, ha, _⟩ := C08_progress hr1 (by simp [State.readers]) p hp
+  exact ⟨_, s', by simp only [run, e]; exact h1, ha⟩
+
+/-- **No deadlock.** From EVERY reachable state — blocks held, creations half done, another
+    plugin inside the exclusive section — a pending registration can still complete: what is in
+    flight can finish, the blocks can be released, the section can be left, the plugin registers.
+    (Enabledness: a continuation exists; fairness of the Go scheduler is not modelled.) -/
+theorem C08_no_deadlock {h : List Ev} {s : State} (hr : run init h = some s)
+    (p : Pid) (hp : (s.pl p).phase = .idle) :
+    ∃ h' s', run s h' = some s' ∧ (s'.pl p).phase = .active ∧ s'.writer = none ∧ s'.readers = 0 := by
+  obtain ⟨h', s', r, a, w, h0⟩ := no_deadlock (good_run hr) hp
+  exact ⟨h', s', r, a, w, by simp [State.readers, h0]⟩
+
+/-- The lock is never stuck: whoever is in the exclusive section can leave it. -/
+theorem C08_section_terminates {h : List Ev} {s : State} (hr : run init h = some s)
+    (q : Pid) (hw : s.writer = some q) :
+    ∃ s', run s (finish q (s.pl q).phase) = some s' ∧ s'.writer = none ∧
+      (s'.pl q).phase = .active := by
+  obtain ⟨s', h1, f⟩ := run_finish (good_run hr) hw
+  exact ⟨s', h1, f.writer, f.active⟩
+
+/-! ### the hypotheses are satisfiable by non-trivial histories -/
+
+/-- container 1 created (record first) before plugin 7 registers, container 2 created (relay
+    first) after: 1 comes with the snapshot, 2 with a request, each exactly once. -/
+def demo : List Ev :=
+  [.block 0, .record 0 1, .relay 0 1, .unblock 0] ++ register 7 ++
+  [.block 1, .relay 1 2, .record 1 2, .unblock 1]
+
+example : ∃ s, run init demo = some s ∧ (s.pl 7).phase = .active ∧ s.store = [2, 1] ∧
+    (s.pl 7).snap = [1] ∧ (s.pl 7).got = [2] ∧ s.readers = 0 :=
+  ⟨_, rfl, by decide, by decide, by decide, by decide, by decide⟩
+
+/-- the lock protocol refuses a synchronisation while a block is held, and a block while a
+    plugin is being synchronised -/
+example : run init [.block 0, .syncBegin 7] = none := by decide
+example : run init [.syncBegin 7, .block 0] = none := by decide
+/-- … and refuses releasing a block that has a creation half done (the proviso) -/
+example : run init [.block 0, .relay 0 1, .unblock 0] = none := by decide
+
+/-- a state with a held block and an in-flight creation is reachable (hypothesis of
+    `C08_blocks_hold`, and the in-flight case excluded from `C08_exactly_once`) -/
+example : ∃ s, run init (register 7 ++ [.block 0, .record 0 1]) = some s ∧ s.readers > 0 ∧
+    (s.pl 7).phase = .active ∧ 1 ∈ s.store ∧ 1 ∉ s.sent ∧ ¬ ExactlyOnce (s.pl 7) 1 :=
+  ⟨_, rfl, by decide, by decide, by decide, by decide, by decide⟩
+
+/-- two blocks held, one creation recorded but not relayed, one relayed but not recorded, and a
+    plugin pending (a state `C08_no_deadlock` speaks about) -/
+example : ∃ s, run init [.block 0, .block 1, .record 0 1, .relay 1 2] = some s ∧ s.readers = 2 ∧
+    s.half = [(1, 2), (0, 1)] ∧ (s.pl 7).phase = .idle :=
+  ⟨_, rfl, by decide, by decide, by decide⟩
+
+/-- a pending registration behind an occupied exclusive section (hypothesis of `C08_progress`) -/
+example : ∃ s, run init [.syncBegin 3, .snapshot 3] = some s ∧ s.readers = 0 ∧
+    s.writer = some 3 ∧ (s.pl 7).phase = .idle :=
+  ⟨_, rfl, by decide, by decide, by decide⟩
+
 end Nri.Props.C08
